@@ -640,14 +640,20 @@ def kernel_crosscheck(ctx, cases, outs):
     bad = [k for k, b in zip(idx, r) if b is not True]
     if bad:
         return "vm_compute evaluation of Model.Kalman.entry_run differs from the extracted program on case %d" % bad[0], len(idx)
+    # the abstraction of the batched model, evaluated by the kernel, against the extracted specification
+    sp = ctx.run_model("entry_spec_run", args)
+    r = ctx.coq_eval_eq("Model.Kalman Spec.Kalman", "entry_abs_run", args, sp, tag="abs")
+    bad = [k for k, b in zip(idx, r) if b is not True]
+    if bad:
+        return "vm_compute evaluation of abs(run) differs from the extracted per-feature specification on case %d" % bad[0], len(idx)
     ai = [k for k, c in enumerate(cases) if c["fn"] == "alg" and not _bad(outs[k])][:30]
     a2 = [_alg_arg(cases[k]) for k in ai]
     e2 = ctx.run_model("entry_alg", a2)
     r2 = ctx.coq_eval_eq("Model.Kalman", "entry_alg", a2, e2, tag="alg")
     bad = [k for k, b in zip(ai, r2) if b is not True]
     if bad:
-        return "vm_compute evaluation of Model.Kalman.entry_alg differs from the extracted program on case %d" % bad[0], len(idx) + len(ai)
-    return None, len(idx) + len(ai)
+        return "vm_compute evaluation of Model.Kalman.entry_alg differs from the extracted program on case %d" % bad[0], 2 * len(idx) + len(ai)
+    return None, 2 * len(idx) + len(ai)
 
 
 def search_cases(ctx, rnd):
